@@ -48,7 +48,7 @@ def run_kani_part(pid, part, tier, seed, report):
     res, wall, log, build_failed = K.run_harnesses(
         qualified, target_name=part.get('target', 'main'), jobs=part.get('jobs', 12),
         harness_timeout_s=part.get('timeout_' + tier, 600 if tier == 'quick' else 2400),
-        full_checks=full, mem_gb=part.get('mem_gb', 14))
+        full_checks=full, mem_gb=part.get('mem_gb', 14), remember_undecided=part.get('best_effort') if tier == 'thorough' else None)
     accept = part.get('labels') or [pid]     # assertion labels that count for this property in this part
     cands, incon = [], []
     if build_failed:
